@@ -144,7 +144,7 @@ func genCfg(r *Rng) *handCfg {
 	if r.Chance(0.05) {
 		// big chips: the same table with every amount multiplied by a large factor (above 2^31, above 2^53 for the total):
 		// the engine's arithmetic is int64 throughout; a narrower or floating intermediate would show only here
-		k := []int64{1000003, 1 << 31, 4294967311, 1099511627}[r.Intn(4)]
+		k := []int64{1000003, 1 << 31, 4294967311, 1099511627, 1<<47 + 1}[r.Intn(5)] // the last one: stacks beyond 2^53 (not every int64 is a float64)
 		c.ante, c.sb, c.bb, c.bd = c.ante*k, c.sb*k, c.bb*k, c.bd*k
 		for i := range c.bank {
 			c.bank[i] = c.bank[i]*k + int64(r.Intn(3))
@@ -338,6 +338,11 @@ func playHand(o *Out, r *Rng, cfgLine string, probeP, viewP, hopP, malP float64)
 			if after == 1 {
 				probeAll(h)
 				h.views()
+				if r.Chance(0.4) {
+					for k := 0; k < 5; k++ {
+						h.query(k) // a closed hand: the queries, and Resume(), find nothing to do
+					}
+				}
 			} else {
 				h.exec(malformedOp(r, gs))
 			}
@@ -361,6 +366,13 @@ func playHand(o *Out, r *Rng, cfgLine string, probeP, viewP, hopP, malP float64)
 		}
 		if r.Chance(0.05) {
 			h.query(r.Intn(5))
+		}
+		if h.saved == nil && r.Chance(0.04) {
+			h.hop("save")
+		} else if h.saved != nil && r.Chance(0.05) {
+			h.hop("rollback")
+			h.saved = nil // one rollback per checkpoint
+			continue
 		}
 		if r.Chance(hopP) {
 			switch {
@@ -386,6 +398,7 @@ func playHand(o *Out, r *Rng, cfgLine string, probeP, viewP, hopP, malP float64)
 
 func runEngine(dir string, seed uint64, n int) {
 	o := NewOut(dir, "engine")
+	wdWatch(o, dir, "engine", seed)
 	r := NewRng(seed)
 	for _, l := range corpusEngine {
 		replayLines(o, l)
